@@ -237,6 +237,17 @@ def check_case(case):
                     viols.append(('alias-differs', '%s return_good=%s: get_cycle_inds gives %s, get_cycle_vector %s' % (describe(case), rg, alias.tolist(), out.tolist())))
             except Exception as e:
                 viols.append(('raise:%s:alias' % type(e).__name__, '%s: get_cycle_inds raised %r' % (describe(case), e)))
+        if len(cols[0]) <= 8:
+            # arguments by position in the documented order (phase, return_good, mask, imf, phase_step), and an
+            # all-True validity mask given as the documented vector: both are the same request
+            for wname, f_ in (('positional arguments', lambda: get_cycle_vector(phase.copy(), rg, None, None, step)),
+                              ('an all-True mask vector', lambda: get_cycle_vector(phase.copy(), return_good=rg, mask=np.ones(len(cols[0]), dtype=bool), phase_step=step))):
+                try:
+                    alt = np.asarray(f_())
+                    if alt.shape != out.shape or not np.array_equal(alt, out):
+                        viols.append(('call-form-differs', '%s return_good=%s: with %s the labels are %s, else %s' % (describe(case), rg, wname, alt.tolist(), out.tolist())))
+                except Exception as e:
+                    viols.append(('raise:%s:call-form' % type(e).__name__, '%s return_good=%s with %s raised %r' % (describe(case), rg, wname, e)))
         if out.shape != (len(cols[0]), len(cols)) or out.dtype.kind not in 'iu':
             viols.append(('shape', '%s: output shape/dtype %r %r' % (describe(case), out.shape, out.dtype)))
             continue
